@@ -5,6 +5,7 @@
 //	issues=<k>    print k issues (shellcheck JSON or pyflakes text)
 //	exit=<code>   exit with the status without printing anything
 //	kill          kill itself with SIGKILL
+//	killout       print one well-formed issue (flushed), then kill itself with SIGKILL
 //	garbage       print text that is not the tool's output format
 //	slow=<ms>     sleep before answering
 //	noread        exit(0) without reading stdin (shellcheck prints "[]")
@@ -72,7 +73,7 @@ func main() {
 	if m := markRe.FindSubmatch(in); m != nil {
 		spec = string(m[1])
 	}
-	issues, exit, kill, garbage := 0, 0, false, false
+	issues, exit, kill, garbage, killout := 0, 0, false, false, false
 	for _, it := range strings.Split(spec, ",") {
 		kv := strings.SplitN(it, "=", 2)
 		val := 0
@@ -86,6 +87,8 @@ func main() {
 			exit = val
 		case "kill":
 			kill = true
+		case "killout":
+			killout = true
 		case "garbage":
 			garbage = true
 		case "slow":
@@ -94,6 +97,15 @@ func main() {
 	}
 	logRec("end %d %d %s", pid, time.Now().UnixNano(), spec)
 	switch {
+	case killout:
+		if mode == "shellcheck" {
+			os.Stdout.WriteString(`[{"file":"-","line":2,"endLine":2,"column":1,"endColumn":3,"level":"warning","code":2000,"message":"fake issue before being killed.","fix":null}]`)
+		} else {
+			os.Stdout.WriteString("<stdin>:1:1: fake issue before being killed\n")
+		}
+		os.Stdout.Sync()
+		syscall.Kill(pid, syscall.SIGKILL)
+		time.Sleep(time.Second)
 	case kill:
 		syscall.Kill(pid, syscall.SIGKILL)
 		time.Sleep(time.Second)
